@@ -123,6 +123,37 @@ impl Gen {
                 }
             }
             "saturate" => self.saturate(r),
+            "clone" => {
+                // clone / clone_from between a and b in every size relation, then mutate either side
+                let x = self.rng.below(100);
+                let k = self.key();
+                let tgt = if self.rng.chance(1, 2) { "b" } else { "a" };
+                if x < 30 {
+                    format!("{} {}", tgt, self.insert(k))
+                } else if x < 42 {
+                    format!("{} remove {}", tgt, k)
+                } else if x < 52 {
+                    format!("{} clone_to_other", tgt)
+                } else if x < 66 {
+                    format!("{} clone_from", tgt)
+                } else if x < 80 {
+                    format!("{} eq", tgt)
+                } else if x < 84 {
+                    format!("{} getmut {} {}", tgt, k, 500 + self.rng.below(100))
+                } else if x < 88 {
+                    format!("{} reserve {}", tgt, self.rng.below(80))
+                } else if x < 91 {
+                    format!("{} shrink_to_fit", tgt)
+                } else if x < 94 {
+                    format!("{} clear", tgt)
+                } else if x < 96 {
+                    format!("{} with_capacity {}", tgt, self.rng.below(40))
+                } else if x < 98 {
+                    format!("{} nop", tgt)
+                } else {
+                    format!("{} get {}", tgt, k)
+                }
+            }
             "xback" => {
                 // layout-independent operations only (results must not depend on iteration order)
                 let x = self.rng.below(100);
